@@ -235,6 +235,7 @@ def interpret_feed(case, ctx):
     feature = _first_known_trigger(cuts, layout, compression, upto)
 
     seen = []            # at process_msg entry: (version, flags, stream, opcode, body)
+    seen_live = []       # ... and whether the connection was still alive (not defunct) at that moment
     handled = []         # at the handlers
     pos = [0]
     fed_at = []
@@ -245,6 +246,7 @@ def interpret_feed(case, ctx):
 
         def spy(header, body):
             seen.append((header.version, header.flags, header.stream, header.opcode, bytes(body)))
+            seen_live.append(not conn.is_defunct)
             fed_at.append(pos[0])
             return orig(header, body)
 
@@ -352,20 +354,30 @@ def interpret_feed(case, ctx):
             ctx.fail(key("C06.corruption", "undetected", region, cmode),
                      "bit %d (%s of segment %d) flipped; all %d bytes fed; connection not defunct (closed=%r, %d of %d "
                      "messages seen)" % (bit, region, flip_seg, total, conn.is_closed, len(seen), len(sent)))
-        bad = next((i for i in range(len(seen)) if i >= len(sent) or seen[i] != sent[i]), None)
+        # "Delivered" = handed to process_msg while the connection is alive, and what handlers
+        # receive.  Once the checksum failure has defuncted the connection every handler has been
+        # errored; frames of *later* segments of the same read that the dead connection still walks
+        # through reach no request handler -- recorded as an observation, not judged.
+        live = [m for m, ok in zip(seen, seen_live) if ok]
+        bad = next((i for i in range(len(live)) if i >= len(sent) or live[i] != sent[i]), None)
         if bad is not None:
             ctx.fail(key("C06.corruption", "altered-delivered", region, cmode),
-                     "bit %d (%s of segment %d) flipped; message %d entering process_msg is not the message sent" % (
-                         bit, region, flip_seg, bad))
+                     "bit %d (%s of segment %d) flipped; message %d entering process_msg on the live connection is not "
+                     "the message sent" % (bit, region, flip_seg, bad))
         else:
             # nothing that travelled (even partly) in the corrupted segment may come out
             limit = len([i for i in range(len(sent)) if msg_end[i] <= layout[flip_seg]["start"]])
-            ctx.check(len(seen) <= limit, key("C06.corruption", "delivered-from-corrupt-segment", region, cmode),
-                      "%d messages seen but only %d lie wholly before the corrupted segment" % (len(seen), limit))
-        ok_handled = all(h[1] == "error" or (h[0] < len(sent) and h[1:6] == (
-            sent[h[0]][0], sent[h[0]][2], sent[h[0]][1], sent[h[0]][3], sent[h[0]][4])) for h in handled)
+            ctx.check(len(live) <= limit, key("C06.corruption", "delivered-from-corrupt-segment", region, cmode),
+                      "%d messages seen but only %d lie wholly before the corrupted segment" % (len(live), limit))
+        if len(live) < len(seen):
+            ctx.label("obs:frames-processed-after-checksum-failure")
+        got = [h for h in handled if h[1] != "error"]
+        ok_handled = all(h[0] < len(sent) and h[1:6] == (
+            sent[h[0]][0], sent[h[0]][2], sent[h[0]][1], sent[h[0]][3], sent[h[0]][4]) for h in got)
         ctx.check(ok_handled, key("C06.corruption", "handler-got-altered", region, cmode),
                   "a handler received a response that differs from the message sent on its stream")
+        ctx.check([h[0] for h in got] == list(range(len(got))), key("C06.corruption", "handler-order", region, cmode),
+                  "handlers that received a response: %r -- not a prefix of the sent list" % ([h[0] for h in got],))
         ctx.label("flip:" + region, "flip-error:" + type(conn.last_error).__name__)
 
     # ---- classification
